@@ -158,6 +158,28 @@ func rewriteSched(pkgPaths []string, src map[string]string, outDir string) (map[
 						wrapRecv(sel, sig)
 						return true
 					}
+					if ok && (nt.Obj().Name() == "Cond" || nt.Obj().Name() == "Locker") && len(c.Args) == 0 && simpleOperand(sel.X) {
+						// X.Wait() -> zzvrt.SchedCondWait(X); X.Broadcast()/Signal() -> zzvrt.SchedCondBroadcast(X);
+						// a sync.Locker (cond.L): X.Lock() -> zzvrt.SchedLockL(X), X.Unlock() -> zzvrt.SchedUnlockL(X)
+						helper := map[string]string{"Cond.Wait": "SchedCondWait", "Cond.Broadcast": "SchedCondBroadcast", "Cond.Signal": "SchedCondBroadcast",
+							"Locker.Lock": "SchedLockL", "Locker.Unlock": "SchedUnlockL"}[nt.Obj().Name()+"."+fn.Name()]
+						if helper == "" {
+							return true
+						}
+						a, b := offs(c)
+						xa, xb := offs(sel.X)
+						x := string(text[xa:xb])
+						if nt.Obj().Name() == "Cond" {
+							if xt := info.TypeOf(sel.X); xt != nil {
+								if _, xp := xt.Underlying().(*types.Pointer); !xp {
+									x = "&" + x
+								}
+							}
+						}
+						add(a, b-a, "zzvrt."+helper+"("+x+")")
+						nPoints++
+						return false
+					}
 					if !ok || (nt.Obj().Name() != "Mutex" && nt.Obj().Name() != "RWMutex") {
 						return true
 					}
